@@ -45,8 +45,12 @@ class Reductions:
 
     def __init__(self):
         self.calls = []
+        # the shipped torch reductions, and custom ones that are NOT the identity on a single part
         self.table = {n: self._wrap(n, f) for n, f in
-                      (("sum", torch.sum), ("mean", torch.mean), ("amax", torch.amax), ("amin", torch.amin))}
+                      (("sum", torch.sum), ("mean", torch.mean), ("amax", torch.amax), ("amin", torch.amin),
+                       ("sum2", lambda x, dim: 2.0 * x.sum(dim)),
+                       ("clip", lambda x, dim: x.sum(dim).clamp(max=0.5)),
+                       ("sumsq", lambda x, dim: (x * x).sum(dim)))}
 
     def _wrap(self, name, fn):
         def red(x, dim):
